@@ -44,6 +44,8 @@ type c15Vec struct {
 	Want     []c15Civil      `json:"want"`
 	Tags     []string        `json:"tags"`
 	Gens     json.RawMessage `json:"gens"`
+	Depth    int             `json:"depth"`  // esd: nesting of the value (the statement's qualifier)
+	Groups   int             `json:"groups"` // esd: number of EntitiesDescriptor elements
 }
 
 type c15DurBack struct {
@@ -458,11 +460,33 @@ func c15EvalEsd(v *c15Vec, seedLabel string) (out c15Out) {
 	v0 := c15BuildESD(s, newRand("c15esd/"+seedLabel+"/"+name))
 	obs := map[string]any{}
 	out.Observed = obs
+	// size and shape, measured on the concrete value (not taken from the spec): the statement's one
+	// qualifier is the nesting of the value; beyond the parser's bound a refusal is outside the statement
+	groups, depth, entities := c15CountESD(v0)
+	obs["groups"], obs["depth"], obs["entities"] = groups, depth, entities
+	if !s.Tree.Trivial() || v.Depth != 0 {
+		if depth != v.Depth || groups != v.Groups {
+			out.Broken = fmt.Sprintf("harness: the value built for %s has %d groups nested %d deep, the spec's shape has %d / %d", name, groups, depth, v.Groups, v.Depth)
+			return out
+		}
+	}
+	clip := func(b []byte) string { // wide documents are not kept whole in the evidence
+		if len(b) > 4000 {
+			return string(b[:2000]) + fmt.Sprintf(" ...[%d bytes]... ", len(b)-4000) + string(b[len(b)-2000:])
+		}
+		return string(b)
+	}
 	var v1, v2 saml.EntitiesDescriptor
 	x1, err, pm := c15Generation(how, v0, &v1)
-	obs["doc1"] = string(x1)
+	obs["doc1"] = clip(x1)
 	if pm == "unknown mode" {
 		out.Broken = err.Error()
+		return out
+	}
+	if err != nil && strings.HasPrefix(err.Error(), "marshal:") && !s.Tree.Trivial() {
+		// not a generated value: the library did not marshal it (the statement quantifies over what it generates)
+		out.Class = "DontCare"
+		out.add(c15Verdict{Drift: "the model marshals every tree, the library refused to marshal " + name + ": " + err.Error()})
 		return out
 	}
 	c15FoundDrift(&out, x1, v.Found)
@@ -486,8 +510,22 @@ func c15EvalEsd(v *c15Vec, seedLabel string) (out c15Out) {
 			if s.VU.P {
 				vuc = "present"
 			}
-			out.add(c15Verdict{Key: fmt.Sprintf("C15:esd:reparse-error:cd=%s:vu=%s:nested=%d", cdc, vuc, s.Nested), Clause: "the EntitiesDescriptor " + name + " does not survive one marshal/unmarshal generation: " + err.Error() + pm})
+			key := fmt.Sprintf("C15:esd:reparse-error:cd=%s:vu=%s:nested=%d", cdc, vuc, s.Nested)
+			if !s.Tree.Trivial() {
+				// abstract case of the size-and-shape dimension: how deep, how many groups
+				key += fmt.Sprintf(":depth=%d:groups=%d", depth, groups)
+			}
+			if v.Class != "MustAccept" {
+				// nested deeper than the parser's bound: a refusal is outside the statement (the drift line above
+				// already says whether the model predicted it)
+				return out
+			}
+			out.add(c15Verdict{Key: key, Clause: fmt.Sprintf("the EntitiesDescriptor %s (%d groups, %d entities, nested %d deep) is marshalled by the library but does not survive one marshal/unmarshal generation: %s%s", name, groups, entities, depth, err.Error(), pm)})
 		}
+		return out
+	}
+	if g1, d1, e1 := c15CountESD(&v1); g1 != groups || d1 != depth || e1 != entities {
+		out.add(c15Verdict{Key: "C15:esd:not-equal:field=.EntitiesDescriptors(count)", Clause: fmt.Sprintf("the EntitiesDescriptor %s has %d groups / depth %d / %d entities, re-parsed %d / %d / %d", name, groups, depth, entities, g1, d1, e1)})
 		return out
 	}
 	c15ZeroCDToNil(v0)
@@ -497,7 +535,7 @@ func c15EvalEsd(v *c15Vec, seedLabel string) (out c15Out) {
 		out.add(c15Verdict{Key: "C15:esd:not-equal:field=" + c15DiffPath(d), Clause: "the EntitiesDescriptor " + name + " re-parses to a different value at " + d})
 	}
 	x2, err, pm := c15Generation(how, &v1, &v2)
-	obs["doc2"] = string(x2)
+	obs["doc2"] = clip(x2)
 	if err != nil {
 		out.add(c15Verdict{Key: "C15:esd:fixedpoint:" + name, Clause: "the re-parsed EntitiesDescriptor does not survive a second generation: " + err.Error() + pm})
 	} else if d := c15Diff(c15NormOf(&v1), c15NormOf(&v2), ""); d != "" {
@@ -873,10 +911,26 @@ func TestC15(t *testing.T) {
 	rep.Extra["c15_cases_per_handover_mode"] = howCases
 	// the registered configuration has the deviation PointerReceiverMarshaller off; the phase before this one
 	// runs TLC with it on (spec/TimeDur_C15dev.cfg) and must have produced a counterexample
-	if m, _ := filepath.Glob(filepath.Join(workDir(), "tlc_violation_*.txt")); len(m) == 0 {
-		rep.Break("TLC did not refute the round trip under the deviation PointerReceiverMarshaller (no tlc_violation_*.txt in the work directory): the hand-over dimension of the model is vacuous")
+	refuted := map[string]bool{}
+	cex, _ := filepath.Glob(filepath.Join(workDir(), "tlc_violation_*.txt"))
+	for _, f := range cex {
+		b, _ := os.ReadFile(f)
+		for _, inv := range []string{"SlotsRoundTrip", "EsdFixedPoint"} {
+			if strings.Contains(string(b), "Invariant "+inv+" is violated") {
+				refuted[inv] = true
+			}
+		}
+	}
+	if !refuted["SlotsRoundTrip"] {
+		rep.Break("TLC did not refute the round trip under the deviation PointerReceiverMarshaller (no counterexample to SlotsRoundTrip in the work directory): the hand-over dimension of the model is vacuous")
 	} else {
 		rep.Note("model self-test: with PointerReceiverMarshaller on (TimeDur_C15dev.cfg) TLC refutes SlotsRoundTrip")
+	}
+	// likewise the size-and-shape dimension: with CounterCountsElements on (spec/TimeDur_C15dev2.cfg) a wide value must not re-parse
+	if !refuted["EsdFixedPoint"] {
+		rep.Break("TLC did not refute the fixed point of a wide EntitiesDescriptor under the deviation CounterCountsElements (no counterexample to EsdFixedPoint in the work directory): the size-and-shape dimension of the model is vacuous")
+	} else {
+		rep.Note("model self-test: with CounterCountsElements on (TimeDur_C15dev2.cfg) TLC refutes EsdFixedPoint on a wide value")
 	}
 	rep.Extra["failures_outside_the_statement_protocol_type_with_absent_optional_instant"] = c15OutsideFailures.Load()
 	for _, k := range []string{"dur", "durstr", "inst", "inststr", "md", "esd", "spmd", "idpmd", "slots"} {
